@@ -490,14 +490,14 @@ type posInfo struct {
 }
 
 func run(r *vrt.Run) {
-	r.Rule("a case = (generated freezer history, crash position in its syscall journal, crash-state variant); histories: 2-5 tables (snappy/raw, tail groups), data files of 64-512 bytes, appends of 1-6 items, head/tail truncations, syncs, close+reopen; positions: mutating syscalls between the first and last workload mark (quick: sampled, thorough: all); variants: kill + systematic and random power-loss cuts. non-trivial signature = (crash model, kind of the in-flight operation, syscall just completed, repair outcome class: head==ack / between / ==max)")
+	r.Rule("a case = (generated freezer history, crash position in its syscall journal, crash-state variant); histories: 2-5 tables (snappy/raw, tail groups), data files of 64-512 bytes, appends of 1-6 items, head/tail truncations, syncs, close+reopen; positions: mutating syscalls between the first and last workload mark (quick: sampled, thorough: a larger sample, all if few); variants: kill + systematic and random power-loss cuts. non-trivial signature = (crash model, kind of the in-flight operation, syscall just completed, repair outcome class: head==ack / between / ==max)")
 	if _, err := exec.LookPath("strace"); err != nil {
 		r.Inconclusive("strace not available: %v", err)
 		return
 	}
-	nh := r.N(6, 200)
-	posPer := r.N(40, 1<<30)
-	nRandom := r.N(1, 8)
+	nh := r.N(6, 30)
+	posPer := r.N(40, 240)
+	nRandom := r.N(1, 2)
 	var mu sync.Mutex
 	seenStates := 0
 	vrt.Par(nh, 0, func(hi int) {
